@@ -197,3 +197,72 @@ func H_C06_known_sacramento_uh() {
 	vsym.AssertNear(first.Get1(0), whole.Get1(0), 1e-9, 1e-9, "first-day-equal")
 	vsym.AssertNear(second.Get1(0), whole.Get1(1), 1e-9, 1e-9, "continued-run-delivers-the-routed-flow-of-the-previous-segment")
 }
+
+// c06sacSplit: Sacramento hot start on the kernel itself, with the unit hydrograph (1,0,0,0,0) so
+// that the pipeline `qq` (known finding) carries nothing across the split: two timesteps in one
+// call versus one + one with the six returned states handed over.  Rain (<= 5.08 mm: single-pass
+// branch) and PET of the second day are symbolic, the first day is concrete or symbolic (see the
+// harnesses); the parameters are one
+// concrete vector with SIDE = 0.3 (the lower-zone free water stores are kept internally scaled by
+// 1+side, so the hand-over has to unscale and rescale them), pctim 0.01, adimp 0.05, channel
+// losses on.  Every output of day two and every final state must agree.  Directives prune=all and
+// concf2i=1 keep the increment fractions constant (see c10sacStorm).
+func c06sacSplit(side float64, symbolicFirstDay bool) {
+	const uztwm, uzfwm, lztwm, lzfsm, lzfpm = 50.0, 8.0, 130.0, 25.0, 60.0
+	in := func(tag string, lo, hi float64) float64 {
+		v := vsym.Float64(tag)
+		vsym.Assume(v >= lo && v <= hi)
+		return v
+	}
+	r2, p2 := in("rain2", 0, 5.08), in("pet2", 0, 3)
+	var r1, p1 float64
+	var s0 [6]float64
+	if symbolicFirstDay {
+		r1, p1 = in("rain1", 0, 5.08), in("pet1", 0, 3)
+		s0 = [6]float64{in("uztwc", 0, uztwm), in("uzfwc", 0, uzfwm), in("lztwc", 0, lztwm), in("lzfpc", 0, lzfpm/(1+side)), in("lzfsc", 0, lzfsm/(1+side)), in("adimc", 0, uztwm+lztwm)}
+		vsym.Assume(s0[5] >= s0[0])
+	} else {
+		// the first day is one concrete wet day from a concrete wet catchment (all six stores part
+		// full, lower-zone free water present): the state handed over is then a vector of exact
+		// rationals, and the second day (symbolic rain and PET) starts from it
+		r1, p1 = 5, 1
+		s0 = [6]float64{40, 6, 100, 30, 12, 150}
+	}
+	two := func(a, b float64) data.ND1Float64 {
+		x := data.NewArray1DFloat64(2)
+		x.Set1(0, a)
+		x.Set1(1, b)
+		return x
+	}
+	run := func(rain, pet data.ND1Float64, s [6]float64) ([6]float64, [5]data.ND1Float64) {
+		n := rain.Len1()
+		o := [5]data.ND1Float64{rrOut(n), rrOut(n), rrOut(n), rrOut(n), rrOut(n)}
+		a, b, c, d, e, f := sacramento(rain, pet, s[0], s[1], s[2], s[3], s[4], s[5],
+			0.01, 0.05, 0.3, uztwm, uzfwm, lztwm, lzfsm, lzfpm, 0.06, 1.0, 40, side, 0.001, 0.01, 0.05, 0.01, 0.3,
+			1, 0, 0, 0, 0, o[0], o[1], o[2], o[3], o[4])
+		return [6]float64{a, b, c, d, e, f}, o
+	}
+	sw, whole := run(two(r1, r2), two(p1, p2), s0)
+	s1, _ := run(rrOne(r1), rrOne(p1), s0)
+	s2, second := run(rrOne(r2), rrOne(p2), s1)
+	vsym.Reach("three-runs")
+	for i := 0; i < 5; i++ {
+		vsym.AssertNear(second[i].Get1(0), whole[i].Get1(1), 1e-9, 1e-9, "continued-run-output-equals-uninterrupted-run")
+	}
+	for i := 0; i < 6; i++ {
+		vsym.AssertNear(s2[i], sw[i], 1e-9, 1e-9, "continued-run-final-state-equals-uninterrupted-run")
+	}
+}
+
+// H_C06_sacramento_split_side: see c06sacSplit, side = 0.3, concrete first day, symbolic second day.
+//vsym:prop=C06 tier=quick ints=int floats=real timeout=120 cut=6 unwind=12 prunefrom=1 prune=all concf2i=1 wall=900 maxruns=200
+func H_C06_sacramento_split_side() { c06sacSplit(0.3, false) }
+
+// H_C06_sacramento_split_noside: side = 0.
+//vsym:prop=C06 tier=quick ints=int floats=real timeout=120 cut=6 unwind=12 prunefrom=1 prune=all concf2i=1 wall=900 maxruns=200
+func H_C06_sacramento_split_noside() { c06sacSplit(0, false) }
+
+// H_C06_sacramento_split_side_sym: both days and the initial stores symbolic (z3 does not decide
+// most of these within the budget: thorough tier, reported INCONCLUSIVE where undecided).
+//vsym:prop=C06 tier=thorough ints=int floats=real timeout=120 cut=6 unwind=12 prunefrom=1 prune=all concf2i=1 wall=1800 maxruns=200
+func H_C06_sacramento_split_side_sym() { c06sacSplit(0.3, true) }
